@@ -152,19 +152,14 @@ def netIds (n : Net) : List Nat :=
 
 /-- `_mark_object_id_as_used` (the counter is initialised before the check). -/
 def mark (s : St) (k : Nat) : St × Option Err :=
-  let s1 : St := match s.counter with
-    | none => { s with counter := some k }
-    | some _ => s
+  let s1 : St := { s with counter := s.counter.or (some k) }     -- `if self._id_counter is None: ... = object_id`
   if k ∈ s1.idSet then (s1, some .value) else ({ s1 with idSet := k :: s1.idSet }, none)
 
 /-- `_mark_object_ids_as_used`: first check all (used already, or twice in the list → ValueError, nothing
     marked), then mark each — none of the single marks can fail then. -/
 def markMany (s : St) (ks : List Nat) : St × Option Err :=
   if ks.Nodup ∧ ∀ k ∈ ks, k ∉ s.idSet then
-    ({ s with idSet := ks.reverse ++ s.idSet,
-              counter := match s.counter with
-                | none => ks.head?
-                | some c => some c }, none)
+    ({ s with idSet := ks.reverse ++ s.idSet, counter := s.counter.or ks.head? }, none)
   else (s, some .value)
 
 /-- `self._id_set.remove(k)` -/
@@ -189,37 +184,28 @@ def putObstacle (s : St) (r : Role) (k : Nat) : St :=
   | .env => { s with env := dictSet s.env k }
   | .phan => { s with phan := dictSet s.phan k }
 
+/-- `self._mark...(ids)` followed by the statements `g` that put the object in: these run only if no
+    ValueError was raised. -/
+def onMarked (r : St × Option Err) (g : St → St) : St × Out :=
+  match r with
+  | (s1, none) => (g s1, .ok)
+  | (s1, some e) => (s1, .err e)
+
 /-- `add_objects(LaneletNetwork)`: all ids of the new network must be unused (checked before anything
     changes, the ids of the current network count as used); then the ids of the network that is replaced
     are released (`self._id_set.difference_update(replaced_object_ids)`). -/
 def addNetwork (s : St) (n : Net) : St × Out :=
-  match markMany s (netIds n) with
-  | (s1, none) => ({ s1 with idSet := s1.idSet.filter (fun k => k ∉ netIds s.net), net := n }, .ok)
-  | (s1, some e) => (s1, .err e)
+  onMarked (markMany s (netIds n)) fun s1 =>
+    { s1 with idSet := s1.idSet.filter (fun k => k ∉ netIds s.net), net := n }
 
 /-- `add_objects` for one object (scenario.py:721-790). -/
 def addObj (s : St) (o : Obj) (refs : List Nat) : St × Out :=
   match o with
-  | .obstacle r k =>
-    match mark s k with
-    | (s1, none) => (putObstacle s1 r k, .ok)
-    | (s1, some e) => (s1, .err e)
-  | .lanelet l =>
-    match mark s l.id with
-    | (s1, none) => ({ s1 with net := s1.net.addLanelet l }, .ok)
-    | (s1, some e) => (s1, .err e)
-  | .sign k =>
-    match mark s k with
-    | (s1, none) => ({ s1 with net := s1.net.addSign k refs }, .ok)
-    | (s1, some e) => (s1, .err e)
-  | .light k =>
-    match mark s k with
-    | (s1, none) => ({ s1 with net := s1.net.addLight k refs }, .ok)
-    | (s1, some e) => (s1, .err e)
-  | .inter i =>
-    match markMany s (interIds i) with
-    | (s1, none) => ({ s1 with net := s1.net.addInter i }, .ok)
-    | (s1, some e) => (s1, .err e)
+  | .obstacle r k => onMarked (mark s k) fun s1 => putObstacle s1 r k
+  | .lanelet l => onMarked (mark s l.id) fun s1 => { s1 with net := s1.net.addLanelet l }
+  | .sign k => onMarked (mark s k) fun s1 => { s1 with net := s1.net.addSign k refs }
+  | .light k => onMarked (mark s k) fun s1 => { s1 with net := s1.net.addLight k refs }
+  | .inter i => onMarked (markMany s (interIds i)) fun s1 => { s1 with net := s1.net.addInter i }
   | .network n => addNetwork s n
   | .invalid => (s, .err .value)
 
